@@ -5,3 +5,4 @@ import PolyVerif.Props.C11
 import PolyVerif.Props.C12
 import PolyVerif.Props.C10
 import PolyVerif.Props.C13
+import PolyVerif.Props.C08
